@@ -1990,7 +1990,7 @@ class Exec:
             return s.drop_slice(st, args[0], where)
         if re.match(r'(ptr::)?drop_in_place::<T>$', c) and isinstance(args[0], ElemPtr):
             return s.drop_slice(st, Slice(args[0].arr, args[0].idx, args[0].idx + 1), where)
-        if re.search(r'(^|::)read::<(T|B)>$', c):
+        if re.search(r'(^|::)read::<(T|B)>$', c) or (re.match(r'^MaybeUninit::<T>::assume_init_read$', c) and isinstance(args[0], (ElemPtr, Elem))):
             p = args[0]
             s.ev_move_out(st, p.arr, p.idx, where)
             return R(Elem(p.arr, p.idx))
